@@ -6,13 +6,16 @@ D: Xfer.tla -- a server that answers a transfer request one message per action u
    (exhaustively, small constants) that the server's sequence is a conforming answer (XferOps!
    WellFormedAxfr ...), that the operational client concludes exactly what the declarative
    XferOps!ClientVerdict prescribes for EVERY message sequence over the alphabet, that an honest
-   transfer arrives whole, and (fair) that a closed stream is always concluded.
+   transfer arrives whole, and (fair) that a closed stream is always concluded.  Five as-is
+   configurations weaken the model the way the implementation was found to be weaker; each has to
+   violate its requirement (design-level counterexamples of the known findings).
 R: Gen_Xfer enumerates (a) zone contents x store x signing x policy x catalog x request with the duty
    the specification derives, (b) scripted message sequences -- every chunking of well-formed
    transfers and malformed ones -- with the prescribed client verdict, (c) transfer requests.
    drive_xfer runs them through the REAL Catalog + InMemory/Sqlite zone handlers (hook H4, TCP / UDP
    semantics), the REAL ClientStreamXfr over a scripted response stream, and the REAL Client
-   (DnsExchange + DnsMultiplexer, time-out) over a scripted connection.
+   (DnsExchange + DnsMultiplexer, time-out) over a scripted connection; (d) end to end: that client
+   stack asks the in-process server -- what it reports as a successful transfer must be the whole zone.
 T: seeded random zones / requests / scripts recorded from the same code; every event of R and T is
    judged by the TLA+ monitor Trace_Xfer (operators of XferOps; multiset comparison of the answer with
    the zone as stored in the handler).
@@ -64,6 +67,13 @@ def classify(m, event_of=None):
         ev = m["event"]
         cls = "client-request:panic" if ev["obs"] == "PANIC" else "client-request:malformed"
         return [(cls, {"mode": ev["mode"], "mname": ev["mname"]})]
+    if kind == "e2e":
+        if m["obs"] != "ok":
+            return [("e2e:" + m["obs"].lower(), {"mode": m["mode"], "policy": m["policy"]})]
+        srv = m["server"]
+        what = ("truncated" if any(x["tc"] for x in srv) else "refused" if any(x["rc"] == 5 for x in srv)
+                else "no-answer" if sum(x["an"] for x in srv) == 0 else "other")
+        return [("e2e-incomplete-zone-accepted", {"mode": m["mode"], "policy": m["policy"], "server": what})]
     if kind == "client":
         base = {"via": m["via"], "mode": m["mode"], "term": m["term"]}
         if m["obs"] != "ok":
@@ -88,7 +98,16 @@ def classify(m, event_of=None):
         raise vlib.ToolError(f"generator and monitor disagree on the duty: {json.dumps(m)[:600]}")
     if m["obs"] != "ok":
         return [(f"server:{duty}:{m['obs'].lower()}", fields)]
-    best = min(m["failures"], key=lambda f: len(f["failed"]))
+    # which alternative the answer was meant to be: by its looks, else the one with the fewest failures
+    alts = {f["alt"]: f for f in m["failures"]}
+    if any(rc != 0 for rc in m["rcs"]) and ("error" in alts or "refusal" in alts):
+        best = alts.get("error") or alts["refusal"]
+    elif m["answers"] == 1 and "single-soa" in alts:
+        best = alts["single-soa"]
+    elif m["answers"] >= 1 and "transfer" in alts:
+        best = alts["transfer"]
+    else:
+        best = min(m["failures"], key=lambda f: len(f["failed"]))
     failed = set(best["failed"])
     if not failed:
         # zones with a malformed stored SOA set etc.
@@ -144,7 +163,7 @@ def run(res, tier, seed):
     res.extra["as_is_counterexamples"] = asis
     # ---- R
     cases = []
-    for family, pfx in (("server", "s"), ("client", "c"), ("request", "q")):
+    for family, pfx in (("server", "s"), ("client", "c"), ("request", "q"), ("e2e", "e")):
         tla, cfg = vlib.wrapper(wd, f"G_{family}", "Gen_Xfer", {}, [l.format(family=family, level=tier) for l in GEN_CFG])
         cs, st = vlib.gen(tla, cfg, wd, workers=4, timeout=900)
         if not cs:
@@ -189,7 +208,7 @@ def run(res, tier, seed):
     lines = open(t_replay).read().splitlines(keepends=True) + open(t_rand).read().splitlines(keepends=True)
     events = {}
     line_of = {}
-    served = refused = conforming = 0
+    served = refused = conforming = e2e_whole = 0
     for li, ln in enumerate(lines):
         e = json.loads(ln)
         line_of[e["case"]] = li
@@ -209,6 +228,11 @@ def run(res, tier, seed):
             events[e["case"]] = {"ev": "client", "script": e["script"], "mode": e["mode"], "term": e["term"], "via": e["via"], "items": e["items"]}
             if len(e["script"]) >= 2:
                 res.nontrivial.add(vlib.digest([e["script"], e["mode"], e["term"], e["via"], e["have"]]))
+        elif e["ev"] == "e2e":
+            events[e["case"]] = {"ev": "e2e"}
+            if len(e["delivered"]) >= 4 and e["ended"] and "err" not in e["items"]:
+                e2e_whole += 1
+            res.nontrivial.add(vlib.digest([e["zone"], e["mode"], e["have"], e["policy"], e["store"]]))
         else:
             events[e["case"]] = {"ev": e["ev"]}
     # shards of similar weight (an event with a 5000-record zone costs as much as hundreds of small ones)
@@ -238,15 +262,15 @@ def run(res, tier, seed):
                 conforming += 1
                 res.sample({"server_case": {k: ev[k] for k in ("req", "policy", "sign", "store", "zone_records")},
                             "messages": ev["nmsgs"], "answer_records": ev["answers"]}, cap=2)
-    if served == 0 or refused == 0:
-        raise vlib.ToolError(f"vacuous run: whole-zone answers={served} refusals={refused}")
+    if served == 0 or refused == 0 or e2e_whole == 0:
+        raise vlib.ToolError(f"vacuous run: whole-zone answers={served} refusals={refused} end-to-end transfers={e2e_whole}")
     # the driver's plain comparison of client cases and the monitor must agree
     mon_bad = {m["case"] for m in mism if m["kind"] == "client" and m["case"] in by_id}
     if mon_bad != rust_bad:
         raise vlib.ToolError(f"replay comparison and monitor disagree on client cases: {sorted(mon_bad ^ rust_bad)[:10]}")
     res.traces += len(lines)
     res.extra.update({"generated_cases_replayed": len(cases), "random_cases_recorded": n_rand, "events_judged": len(lines),
-                      "whole_zone_answers": served, "conforming_transfers": conforming, "refusals": refused, "whole_multi_message_transfers_delivered": whole_multi,
+                      "whole_zone_answers": served, "conforming_transfers": conforming, "refusals": refused, "whole_multi_message_transfers_delivered": whole_multi, "end_to_end_transfers_delivered": e2e_whole,
                       "events_rejected_by_monitor": len(bad_cases)})
     for m in mism:
         detail = dict(m)
